@@ -433,6 +433,16 @@ class Fn:
         self.tables = spec.get("tables", {})      # per-object feature tables: lean var -> value type (a list by position)
         self.fuel = list(spec.get("fuel", []))    # Lean text of the fuel of the k-th `while` loop (source order)
         self.table_keys = {}                      # "['key']" -> table, for the syntactic mutation analysis
+        self.objects = spec.get("objects", {})    # spec record types whose values are mutable objects: type -> why members are distinct
+        self.objvars = set()                      # loop variables of object loops (records that may be rebound field by field)
+        self.objloops = 0                         # > 0 while the body of an object loop is compiled
+        self.inplace = any(                       # does the function mutate a list object in place anywhere?
+            (isinstance(n, (ast.Assign, ast.AugAssign))
+             and any(isinstance(t, ast.Subscript) and not (isinstance(t.slice, ast.Constant) and isinstance(t.slice.value, str))
+                     for t in (n.targets if isinstance(n, ast.Assign) else [n.target])))
+            or isinstance(n, ast.Delete)
+            or (isinstance(n, ast.Call) and isinstance(n.func, ast.Attribute) and n.func.attr in self.MUTATORS)
+            for n in ast.walk(fndef))
         for tb in self.types.values():
             for acc, ent in tb.items():
                 tmpl = ent[0]
@@ -659,6 +669,8 @@ class Fn:
             return after(env)
         if isinstance(st, ast.Return) and self.depth >= 2:
             bad(st, "return inside a nested loop")
+        if isinstance(st, ast.Return) and self.objloops:
+            bad(st, "return inside a loop that updates the members of a list of objects")
         if isinstance(st, ast.Return):
             if st.value is None:
                 if self.s.get("return_none") is not None:
@@ -872,9 +884,16 @@ class Fn:
                 m = m.value
             else:
                 break
-        if not path or not isinstance(m, ast.Subscript):
+        if not path:
             return None
-        ref = self.elem_ref(m, env)
+        if isinstance(m, ast.Name) and m.id in self.objvars and env.get(m.id) in self.objects:
+            # the loop variable of an object loop: a record value that is rebound (get = None: no look-up needed)
+            x = m.id
+            ref = ([], x, None, lambda v: (v, False), env[x])
+        elif isinstance(m, ast.Subscript):
+            ref = self.elem_ref(m, env)
+        else:
+            return None
         if ref is None:
             return None
         ty = ref[4]
@@ -894,18 +913,54 @@ class Fn:
                 return ref, ent[0], ent[2], ent[1]
         return None
 
-    def assign_field(self, fr, tgt, value, op, st, env, after):
+    def assign_field(self, fr, tgt, value, op, st, env, after, index=None):
         """`xs[i].field = e` / `+= e`: the member is a record value, the list is rebound with the member replaced
-        (valid because the members of the list are distinct objects - stated in the spec entry)"""
+        (valid because the members of the list are distinct objects - stated in the spec entry).  The root may also
+        be the loop variable of an object loop (then the variable itself is rebound).  With `index`:
+        `<object>.field[j] = e` / `op= e` on a field that is a list (natural-number index; IndexError = none)."""
         (pre, x, get, put, ety), getter, setter, fty = fr
-        t = self.tmp()
-        p2, v, ty = self.expr(value, env, fty)
-        if op is not None:
-            cur = Tm(getter, [V(t)])
-            v, ty = self.arith(op, cur, fty, v, ty, st)
-        v = self.coerce(v, ty, fty, st)
-        new = Tm(setter, [V(t), v])
-        pre = pre + [("bind", t, get)] + p2
+        if get is None:
+            obj = V(x)
+            pre = list(pre)
+        else:
+            t = self.tmp()
+            obj = V(t)
+            pre = pre + [("bind", t, get)]
+        if index is None:
+            p2, v, ty = self.expr(value, env, fty)
+            if isinstance(fty, tuple) and fty[0] == "List" and self.inplace and not isinstance(value, (ast.List, ast.Call)):
+                bad(st, "a list stored into an attribute in a function that mutates lists in place (the two names "
+                        "would share one list object)")
+            if op is not None:
+                cur = Tm(getter, [obj])
+                v, ty = self.arith(op, cur, fty, v, ty, st)
+            v = self.coerce(v, ty, fty, st)
+            new = Tm(setter, [obj, v])
+            pre = pre + p2
+        else:
+            if not (isinstance(fty, tuple) and fty[0] == "List"):
+                bad(st, "indexed assignment to an attribute that is not a list")
+            elty = fty[1]
+            cur = Tm(getter, [obj])
+            pi, i, ti = self.expr(index, env, "Nat")
+            if ti == "IntLit":
+                self.setlit(i, "Nat", st)
+                ti = "Nat"
+            if ti != "Nat":
+                bad(st, "index of type %s in an indexed assignment to an attribute (only natural numbers)" % tshow(ti))
+            if op is None:
+                # Python: value first, then the container and the index, then the store (IndexError)
+                p2, v, ty = self.expr(value, env, elty)
+                v = self.coerce(v, ty, elty, st)
+                pre = pre + p2 + pi + [("guard", Op("<", i, Tm("(List.length {0})", [cur])))]
+            else:
+                # Python: container, index, load of the element (IndexError), value, operation, store
+                t0 = self.tmp()
+                p2, v, ty = self.expr(value, env, elty)
+                pre = pre + pi + [("bind", t0, Tm("{0}[{1}]?", [cur, i]))] + p2
+                v, ty = self.arith(op, V(t0), elty, v, ty, st)
+                v = self.coerce(v, ty, elty, st)
+            new = Tm(setter, [obj, Tm("(List.set {0} {1} {2})", [cur, i, v])])
         term, opt = put(new)
         env2 = self.forget(self.learn(env, pre), [x])
         if opt:
@@ -1015,6 +1070,11 @@ class Fn:
         fr = self.field_ref(tgt, env)
         if fr is not None:
             return self.assign_field(fr, tgt, value, op, st, env, after)
+        if isinstance(tgt, ast.Subscript) and not isinstance(tgt.slice, ast.Slice) \
+                and not (isinstance(tgt.slice, ast.Constant) and isinstance(tgt.slice.value, str)):
+            fr = self.field_ref(tgt.value, env)
+            if fr is not None:
+                return self.assign_field(fr, tgt, value, op, st, env, after, index=tgt.slice)
         if ast.unparse(tgt) in self.fields:
             # attribute of the object that the spec represents as a record state variable
             if op is not None:
@@ -1110,29 +1170,20 @@ class Fn:
             # call), then the members are reordered by a stable sort on `key a <= key b` (CPython's list.sort is
             # stable); `pyKeys` / `pySort` of the generated prelude, the order is that of the spec's `sort` type
             lam = call.keywords[0].value
-            if len(lam.args.args) != 1 or lam.args.defaults or lam.args.vararg or lam.args.kwarg:
-                bad(st, "sort key that is not a one-parameter lambda")
             x = self.target_var(f.value, env)
             if x not in env or not (isinstance(env[x], tuple) and env[x][0] == "List"):
                 bad(st, "sort on something that is not a list variable")
-            lv = lam.args.args[0].arg
-            if lv in env or lv in self.lean_param_names:
-                bad(st, "lambda parameter shadows a variable in scope")
-            env2 = dict(env)
-            env2[lv] = env[x][1]
-            pk, kv, kty = self.expr(lam.body, env2)
-            if kty != self.s["sort"]:
-                bad(st, "sort key of type %s (the spec entry sorts by %s)" % (tshow(kty), tshow(self.s["sort"])))
-            if len(pk) == 1 and pk[0][0] == "bind" and isinstance(kv, V) and kv.name == pk[0][1]:
-                keyfn = Lam(lv, pk[0][2])
-            else:
-                keyfn = Lam(lv, self.wrap(pk, Tm("(some {0})", [kv]), st))
-            self.need("pyKeys")
-            self.need("pySort")
+            keyfn, sorter = self.sort_key(lam, env[x][1], env, st)
             t = self.tmp()
             body = MatchOpt(Tm("(pyKeys {0} {1})", [keyfn, V(x)]), t,
-                            Let(x, Tm("(pySort {0})", [V(t)]), after(self.forget(env, [x]))), self.none(st))
+                            Let(x, Tm("(%s {0})" % sorter, [V(t)]), after(self.forget(env, [x]))), self.none(st))
             return body
+        if isinstance(f, ast.Attribute) and f.attr == "reverse" and not call.args and not call.keywords:
+            # xs.reverse() as a statement
+            x = self.target_var(f.value, env)
+            if x not in env or not (isinstance(env[x], tuple) and env[x][0] == "List"):
+                bad(st, "reverse on something that is not a list variable")
+            return Let(x, Tm("(List.reverse {0})", [V(x)]), after(self.forget(env, [x])))
         if isinstance(f, ast.Attribute) and f.attr == "pop" and not call.args and not call.keywords:
             # xs.pop() as a statement: drop the last member; IndexError on an empty list
             x = self.target_var(f.value, env)
@@ -1144,6 +1195,30 @@ class Fn:
         if key in self.calls and self.calls[key].get("stmt"):
             return self.calls[key]["stmt"](self, st, env, after)
         bad(st, "call used as a statement")
+
+    def sort_key(self, lam, ety, env, node):
+        """`key=lambda x: e` of `xs.sort` / `sorted(xs)` on members of type `ety` -> (key function : α → Option κ,
+        name of the stable ascending sort on the keyed members for the spec's `sort` type)"""
+        if len(lam.args.args) != 1 or lam.args.defaults or lam.args.vararg or lam.args.kwarg:
+            bad(node, "sort key that is not a one-parameter lambda")
+        lv = lam.args.args[0].arg
+        if lv in env or lv in self.lean_param_names:
+            bad(node, "lambda parameter shadows a variable in scope")
+        env2 = dict(env)
+        env2[lv] = ety
+        pk, kv, kty = self.expr(lam.body, env2)
+        if kty != self.s["sort"]:
+            bad(node, "sort key of type %s (the spec entry sorts by %s)" % (tshow(kty), tshow(self.s["sort"])))
+        sorter = {"Rat": "pySort", "Int": "pySortInt"}.get(kty)
+        if sorter is None:
+            bad(node, "no sort primitive for keys of type %s" % tshow(kty))
+        if len(pk) == 1 and pk[0][0] == "bind" and isinstance(kv, V) and kv.name == pk[0][1]:
+            keyfn = Lam(lv, pk[0][2])
+        else:
+            keyfn = Lam(lv, self.wrap(pk, Tm("(some {0})", [kv]), node))
+        self.need("pyKeys")
+        self.need(sorter)
+        return keyfn, sorter
 
     def delete(self, st, env, after):
         if len(st.targets) != 1 or not isinstance(st.targets[0], ast.Subscript):
@@ -1301,11 +1376,29 @@ class Fn:
             pre = self.snapshot_guard(st, env)
             p2, lst, ety, pat, patenv = self.iterable(st.iter, st.target, env)
             pre = pre + p2
+            objloop = self.object_loop(st, env, ety)
             if has_unknown(ety):
                 # element type not known yet (a list that starts empty): skipped in this typing pass, the
                 # pass does not produce output (`unresolved`)
                 self.unresolved = True
                 return after(env)
+        if is_while:
+            objloop = None
+        if objloop:
+            # `for x in xs:` whose body updates attributes of x: xs is a list of record values, the loop runs over its
+            # value at entry, x is a record variable that the body rebinds field by field, every pass ends by appending
+            # the final x to the accumulator `<xs>_done`, and after the loop xs is rebound to the accumulator (= xs with
+            # every member replaced by its updated value; valid because the members are distinct objects and the body
+            # cannot touch the list object or let x escape - checked in `object_loop`)
+            xs_var, acc = objloop
+            env = dict(env)
+            env[acc] = env[xs_var]
+            inner_after = after
+
+            def after(e, _k=inner_after, _xs=xs_var, _acc=acc):       # noqa: F811
+                e2 = dict(self.forget(e, [_xs]))
+                del e2[_acc]
+                return Let(_xs, V(_acc), _k(e2))
         self.nloops += 1
         lp = Loop("%s_loop%d" % (self.lean, self.nloops), ("fl%d" if is_while else "tl%d") % self.nloops)
         lp.kind = "while" if is_while else "for"
@@ -1333,18 +1426,28 @@ class Fn:
 
         def chk(e):
             same(e)
+            if objloop:
+                return Let(objloop[1], Tm("({0} ++ [{1}])", [V(objloop[1]), V(st.target.id)]), Rec(lp))
             return Rec(lp)
 
         def brk(e):
+            if objloop:
+                bad(st, "break out of a loop that updates the members of a list of objects")
             if not nested:
                 return after(e)
             same(e)
             return Out(lp)
         self.depth += 1
+        if objloop:
+            self.objloops += 1
+            self.objvars.add(st.target.id)
         try:
             body = self.block(st.body, env2, chk, (brk, chk))
         finally:
             self.depth -= 1
+            if objloop:
+                self.objloops -= 1
+                self.objvars.discard(st.target.id)
         if is_while:
             cpre, c = self.cond(st.test, env)
             body = self.wrap(cpre, If(c, FuelMatch(fuel, lp.tl, body, self.none(st), pat), nil), st)
@@ -1394,12 +1497,54 @@ class Fn:
             lines += ["  | []%s =>" % args] + pp(nil, 2)
             lines += ["  | %s :: %s%s =>" % (pat_show(pat), lp.tl, args)] + pp(body, 2)
         self.defs.append("\n".join(lines))
+        if objloop:
+            return self.wrap(pre, Let(objloop[1], C("([] : %s)" % tshow(env[objloop[1]])), Call(lp, lst)), st)
         if not nested:
             return self.wrap(pre, Call(lp, lst), st)
         patc = lp.carried[0] if len(lp.carried) == 1 else tuple(lp.carried)
         if self.raises:
             return self.wrap(pre, MatchOpt(Call(lp, lst), patc, after(env), self.none(st)), st)
         return self.wrap(pre, Let(patc, Call(lp, lst), after(env)), st)
+
+    def object_loop(self, st, env, ety):
+        """Is `for x in xs: body` a loop that updates attributes of the members of a list of objects?
+        -> None | (Lean variable of xs, accumulator name).  Conditions (all syntactic, otherwise rejected):
+        the element type is declared in the spec's `objects`; xs is a state variable or a local list named directly
+        (no snapshot, no zip); the loop is not nested; the body does not assign or mutate xs itself; every occurrence
+        of x in the body is the root of an attribute / key path (x never escapes: it is not passed to a call, stored,
+        appended or aliased), so the only way the body changes a member is through x."""
+        if not (isinstance(ety, str) and ety in self.objects and isinstance(st.target, ast.Name)):
+            return None
+        x = st.target.id
+        if x not in self.assigned_in(st.body):
+            return None                                  # members are only read: an ordinary loop
+        key = ast.unparse(st.iter)
+        if key in self.state:
+            xs = self.state[key][0]
+        elif isinstance(st.iter, ast.Name) and st.iter.id in env and st.iter.id not in self.lean_param_names:
+            xs = st.iter.id
+        else:
+            bad(st, "loop that updates the members of a list which is neither a state variable of the spec nor a local list")
+        if self.depth >= 1:
+            bad(st, "nested loop that updates the members of a list of objects")
+        if xs in self.assigned_in(st.body):
+            bad(st, "loop body assigns or mutates the list whose members it updates")
+        parents = {}
+        for s0 in st.body:
+            for n in ast.walk(s0):
+                for c in ast.iter_child_nodes(n):
+                    parents[id(c)] = n
+        for s0 in st.body:
+            for n in ast.walk(s0):
+                if isinstance(n, ast.Name) and n.id == x:
+                    par = parents.get(id(n))
+                    if not (isinstance(par, (ast.Attribute, ast.Subscript)) and par.value is n):
+                        bad(n, "the loop variable of an object loop used other than as the root of an attribute path "
+                               "(the object could escape or be aliased)")
+        acc = xs + "_done"
+        if acc in env or acc in self.lean_param_names:
+            bad(st, "name clash with the accumulator %s" % acc)
+        return xs, acc
 
     def iterable(self, it, tgt, env, consumed_at_once=False):
         """-> (pre, Lean list term, element type, Lean pattern, {pattern var: type})"""
@@ -1709,8 +1854,18 @@ class Fn:
                     bad(n, "index of type %s on a value of type %s" % (tshow(ti), tshow(tb)))
                 t = self.tmp()
                 return pre + p2 + [("bind", t, Tm(tmpl, [b, i]))], V(t), ty
+        if isinstance(sl, ast.Slice) and isinstance(tb, tuple) and tb[0] == "List" and sl.lower is None \
+                and sl.step is None and sl.upper is not None:
+            # xs[:k] for a natural number k (a negative k would count from the end: not a natural number, rejected)
+            p2, k, tk = self.expr(sl.upper, env, "Nat")
+            if tk == "IntLit":
+                self.setlit(k, "Nat", n)
+                tk = "Nat"
+            if tk != "Nat":
+                bad(n, "slice bound of type %s (only natural numbers)" % tshow(tk))
+            return pre + p2, Tm("(List.take {0} {1})", [k, b]), tb
         if isinstance(sl, ast.Slice):
-            bad(n, "slice (only slices named in the binding table are supported)")
+            bad(n, "slice (only slices named in the binding table, and xs[:k] on lists, are supported)")
         if isinstance(tb, tuple) and tb[0] == "Prod":
             if isinstance(sl, ast.Constant) and isinstance(sl.value, int) and 0 <= sl.value < len(tb[1]):
                 k = sl.value
@@ -1752,6 +1907,16 @@ class Fn:
                 t = self.tmp()
                 return pre + [("bind", t, node)], V(t), c["ret"]
             return pre, node, c["ret"]
+        if key == "sorted" and len(n.args) == 1 and len(n.keywords) == 1 and n.keywords[0].arg == "key" \
+                and isinstance(n.keywords[0].value, ast.Lambda) and self.s.get("sort"):
+            # sorted(xs, key=lambda x: e): a new list - all keys first (`pyKeys`, a raising key aborts), then the
+            # stable ascending sort of the keyed members (CPython's sort is stable and compares keys with `<` only)
+            pre, xs, ty = self.expr(n.args[0], env)
+            if not (isinstance(ty, tuple) and ty[0] == "List") or has_unknown(ty):
+                bad(n, "sorted of something that is not a list")
+            keyfn, sorter = self.sort_key(n.keywords[0].value, ty[1], env, n)
+            t = self.tmp()
+            return pre + [("bind", t, Tm("(pyKeys {0} {1})", [keyfn, xs]))], Tm("(%s {0})" % sorter, [V(t)]), ty
         if n.keywords:
             bad(n, "keyword arguments")
         if key in ("any", "all") and len(n.args) == 1 and isinstance(n.args[0], ast.GeneratorExp):
@@ -1907,6 +2072,9 @@ HELPERS = {
     "pySort": ("/-- `list.sort` on the keyed members: stable, ascending -/\n"
                "def pySort {α : Type} (kx : List (Rat × α)) : List α :=\n"
                "  (kx.mergeSort (fun a b => decide (a.1 ≤ b.1))).map (·.2)"),
+    "pySortInt": ("/-- `sorted` / `list.sort` on members keyed by integers: stable, ascending -/\n"
+                  "def pySortInt {α : Type} (kx : List (Int × α)) : List α :=\n"
+                  "  (kx.mergeSort (fun a b => decide (a.1 ≤ b.1))).map (·.2)"),
     "pySet": ("/-- `xs[k] = v` (or an in-place update of `xs[k]`) for a signed index; `none` = IndexError -/\n"
               "def pySet {α : Type} (xs : List α) (k : Int) (v : α) : Option (List α) :=\n"
               "  if 0 ≤ k then (if k.toNat < xs.length then some (xs.set k.toNat v) else none)\n"
@@ -1985,6 +2153,9 @@ def normalise(fn, spec):
             ok_nodes.add(id(n.args[0]))
         # `xs.sort(key=lambda x: ...)`: only through a `sort` entry of the spec
         if isinstance(n, ast.Call) and isinstance(n.func, ast.Attribute) and n.func.attr == "sort" \
+                and spec.get("sort") and len(n.keywords) == 1 and isinstance(n.keywords[0].value, ast.Lambda):
+            ok_nodes.add(id(n.keywords[0].value))
+        if isinstance(n, ast.Call) and isinstance(n.func, ast.Name) and n.func.id == "sorted" \
                 and spec.get("sort") and len(n.keywords) == 1 and isinstance(n.keywords[0].value, ast.Lambda):
             ok_nodes.add(id(n.keywords[0].value))
     for n in ast.walk(fn):
@@ -2162,6 +2333,9 @@ def generate(name, repo):
             out.append("ignored     : %s: `%s`  (%s)" % (sp["py"], " ".join(x.strip() for x in t.split("\n")), why))
         for t, v in sp.get("static", {}).items():
             out.append("specialised : %s: `%s` is %s" % (sp["py"], t, v))
+        for t, why in sp.get("objects", {}).items():
+            out.append("objects     : %s: values of `%s` stand for mutable objects; a loop that updates the members of a list "
+                       "of them assumes the members are distinct objects (%s)" % (sp["py"], t, why))
         for k, t in enumerate(sp.get("fuel", [])):
             if isinstance(t, dict):
                 out.append("fuel        : %s: every pass of while loop %d consumes one member of the oracle list `%s` "
@@ -2177,6 +2351,8 @@ def generate(name, repo):
     out.append("")
     for h in helpers:
         out += [HELPERS[h], ""]
+    if mod.get("prelude"):
+        out += [mod["prelude"].strip("\n"), ""]      # type declarations of the spec (records the functions work on)
     out.append("\n\n".join(defs))
     out += ["", "end Artap.Gen.%s" % name, ""]
     return "\n".join(out), blob
